@@ -8532,7 +8532,16 @@ pub fn recover_from_frames_and_commits(
     validate_recovery_frame_order(frames)?;
     let mut recovered = Vec::new();
     let mut last_committed_lsn = None;
+    // Commit markers must tile the frame LSN range in order: the first marker starts at the
+    // first frame, every later marker starts right after its predecessor ends.  A removed,
+    // duplicated or reordered marker leaves a hole or an overlap and is rejected instead of
+    // silently changing the recovered history.
+    let mut expected_first_lsn = frames.iter().map(|frame| frame.header.lsn).min();
     for commit in commits {
+        if expected_first_lsn.is_some_and(|expected| commit.first_lsn != expected) {
+            return Err(WalValidationError::LsnContinuityMismatch.into());
+        }
+        expected_first_lsn = commit.last_lsn.checked_next();
         let tx_frames: Vec<WalFrame> = frames
             .iter()
             .filter(|frame| {
